@@ -1,0 +1,76 @@
+// SPDX-License-Identifier: MIT OR Apache-2.0
+
+//! Verification hook, compiled only with `--cfg p2panda_p2panda_verif` (properties C16, C17).
+//!
+//! Builds a [`GossipHandle`] over plain local channels instead of a running gossip overlay, so
+//! that a harness can observe what is published into the overlay and can hand arbitrary bytes to
+//! subscriptions, exactly as the gossip session actors would.
+//!
+//! This file is mounted as a child module of `gossip::api` (it needs the private constructors
+//! there); nothing in here is reachable without the cfg flag.
+use p2panda_core::Topic;
+use ractor::thread_local::{ThreadLocalActor, ThreadLocalActorSpawner};
+use ractor::{ActorProcessingErr, ActorRef};
+use tokio::sync::{OnceCell, broadcast, mpsc};
+
+use super::{GossipHandle, TopicDropGuard};
+use crate::gossip::actors::ToGossipManager;
+
+/// Stand-in for the gossip manager actor: swallows every message (the only one a handle or
+/// subscription ever sends is `Unsubscribe` when the last guard is dropped).
+#[derive(Default)]
+pub struct VerifProbeManager;
+
+impl ThreadLocalActor for VerifProbeManager {
+    type State = ();
+
+    type Msg = ToGossipManager;
+
+    type Arguments = ();
+
+    async fn pre_start(
+        &self,
+        _myself: ActorRef<Self::Msg>,
+        _args: Self::Arguments,
+    ) -> Result<Self::State, ActorProcessingErr> {
+        Ok(())
+    }
+}
+
+static PROBE: OnceCell<ActorRef<ToGossipManager>> = OnceCell::const_new();
+
+impl GossipHandle {
+    /// Returns a handle for `topic` together with the receiving end of the "into the overlay"
+    /// channel (what `publish` sends) and the sending end of the "out of the overlay" broadcast
+    /// channel (what subscriptions receive).
+    pub async fn verif_over_channels(
+        topic: Topic,
+        max_message_size: usize,
+        to_topic_capacity: usize,
+        from_gossip_capacity: usize,
+    ) -> (Self, mpsc::Receiver<Vec<u8>>, broadcast::Sender<Vec<u8>>) {
+        let actor_ref = PROBE
+            .get_or_init(|| async {
+                let (actor_ref, _) =
+                    VerifProbeManager::spawn(None, (), ThreadLocalActorSpawner::new())
+                        .await
+                        .expect("probe actor spawns");
+                actor_ref
+            })
+            .await
+            .clone();
+
+        let (to_topic_tx, to_topic_rx) = mpsc::channel(to_topic_capacity);
+        let (from_gossip_tx, _) = broadcast::channel(from_gossip_capacity);
+        let guard = TopicDropGuard::new(topic, actor_ref);
+        let handle = GossipHandle::new(
+            topic,
+            max_message_size,
+            to_topic_tx,
+            from_gossip_tx.clone(),
+            guard,
+        );
+
+        (handle, to_topic_rx, from_gossip_tx)
+    }
+}
